@@ -15,7 +15,8 @@ SPEC = {
                   "critical sections - so that all interleavings of 2 and 3 threads and random schedules of up to 8 threads are executed "
                   "deterministically without any hook in nebula; result vectors, final window cursor and bitmap are compared with the model "
                   "run on the same schedule, and the property (per-counter deliveries <= 1, deliveries authentic) is evaluated on the "
-                  "implementation's results, also for free-running stress rounds.",
+                  "implementation's results, also for free-running stress rounds. "
+                  "System level (component sysmon_C12): in seeded event histories of four real nodes built by nebula.Main with duplicated, replayed and reordered datagrams, direct and relayed, no inner packet (unique payload marker) is written to a tun more than once.",
     "level_note": "Trusted: Coq kernel; the harness, the overlay shim and the gating cipher wrapper. The theorems assume sync.Mutex gives "
                   "mutual exclusion (each locked section is atomic) and that DecryptDanger touches neither the window nor the lock; the "
                   "cipher's verdict is an oracle bit per packet. Callers in outside.go act only on a nil error (read, not modelled); "
@@ -25,7 +26,7 @@ SPEC = {
     "gens": ["gen_decrypt"],
     "props": ["props/C12.v"],
     "corr": ["corr/Decrypt_corr.v"],
-    "comps": [{"comp": "decrypt", "n_quick": 150, "n_thorough": 5000}],
+    "comps": [{"comp": "decrypt", "n_quick": 150, "n_thorough": 5000}, {"comp": "sysmon_C12", "e2e": True, "n_quick": 12, "n_thorough": 150}],
     "trusted": ["model/Decrypt.v is a hand-written mirror of where ConnectionState.Decrypt / VerifyRelay take and release decryptLock, "
                 "tied by scripted interleavings on the real functions",
                 "model/Bits.v (the window) is tied to bits.go by the C11 correspondence",
